@@ -124,9 +124,9 @@ class Gen:
         if kind == "use":
             n = {"tag": "use", "id": self.nid(), "geom": {}, "children": [], "attrs": {}, "href": R.choice(self.targets), "xlink": R.random() < 0.5}
             if R.random() < 0.6:
-                n["geom"]["x"] = self.length(self.num(), "x", False)
+                n["geom"]["x"] = self.length(self.num(), "x")
             if R.random() < 0.6:
-                n["geom"]["y"] = self.length(self.num(), "y", False)
+                n["geom"]["y"] = self.length(self.num(), "y")
             if R.random() < self.o["transforms"]:
                 n["tf"], n["tftext"] = self.transform()
             if R.random() < 0.3:
